@@ -26,7 +26,7 @@ Ops(ob) ==
   \cup {Op("remove_at", NoK, 0, i, 99, <<>>) : i \in 0..len}
   \cup {Op("set_value", NoK, v, i, 99, <<>>) : i \in 0..len, v \in Vals}
   \cup {Op(name, NoK, 0, 0, 99, <<>>) : name \in {"sort", "clone"}}
-  \cup {Op(name, NoK, 0, 0, 99, es) : name \in {"from_vec", "extend"}, es \in Bulk}
+  \cup {Op(name, NoK, 0, 0, 99, es) : name \in {"from_vec", "extend", "clone_from"}, es \in Bulk}
 
 OInit == o = EmptyObj /\ hist = <<>>
 
